@@ -19,7 +19,14 @@ RULE = ("sched: 1-3 concurrent shows (1-6 steps; durations on the 125 ms grid gi
         "model of the player's instance dictionary and to the oracle.  prio: show_player entries of two modes "
         "(priority 100 / 300) and of the machine config for three shows sharing lights, triggered repeatedly at the "
         "same and at later instants, modes started and stopped; non-trivial = an entry with a non-zero calling "
-        "priority triggered at least twice; oracle only")
+        "priority triggered at least twice; oracle only.  replay: 1-3 shows with `(token)` placeholders in light "
+        "names, colours (whole value and inside `(c)-f250ms`) and event names, 0-2 show pools (sequence / random), a "
+        "palette of 1-3 show_player play entries (copies of each other with swapped / changed token values, changed "
+        "insertion order, start step, speed, sync_ms, events) played REPEATEDLY on 1-2 keys through the SAME validated "
+        "entry, mixed with stop/pause/resume/advance/step_back: identical and non-identical requests while the "
+        "previous show is on its start step, on later steps, after it was stopped, after it completed by itself "
+        "(half of the cases: short finite shows), sync_ms 0 / 250 / 500 ms, block_queue with a real QueuedEvent; "
+        "non-trivial = a play request met a previous instance on its key")
 TRUSTED_BASE = [
     "Coq 8.16.1 kernel (coqc), vm_compute for refutation witnesses and for evaluating the model in the correspondence run; no native_compute",
     "axioms: none (every Print Assumptions is 'Closed under the global context')",
@@ -27,6 +34,12 @@ TRUSTED_BASE = [
     "with the per-key removal delays, + the clock of show timers and removal delays) and coq/C17/Player.v of the "
     "show_player instance dictionary and actions, tied to /repo by correspondence: harness/props/c17.py runs real "
     "shows on a real machine on the virtual clock and the models on the same generated request sequences",
+    "hand-written model coq/C17/Replay.v of token substitution + Show._step_cache, show pools, "
+    "ShowController.replace_or_advance_show, start/stop callbacks and the instance dictionary under repeated plays, "
+    "tied to /repo by the replay correspondence suite (real show_player, real QueuedEvent, shows registered and "
+    "loaded through show_controller.register_show / Show.load, pools through ShowController._create_show_pool)",
+    "replay suite only: observation-only wrappers around EventPlayer.play (which step of which show context runs, "
+    "with the substituted event names) and LightPlayer.clear_context (when a show context is cleared = stop time)",
     "recording wrappers installed by the harness around Light.color, Light.remove_from_stack_by_key, "
     "Light._remove_fade_out and LightPlayer.clear_context (observation only) and event handlers on the shows' events; "
     "the default fade of a light is set through the attribute Light.default_fade_ms (what Light._initialize sets from "
@@ -40,6 +53,13 @@ ASSUMPTIONS = [
     "every float operation of the implementation is exact and the comparison is exact (microseconds)",
     "light stack order (priority sort) and colours during fades are C09's subject; here a stack is the set of "
     "(owner, colour | fade-out)",
+    "Replay.v: start_step is an integer on the show_player route (the `start_step is None` branch of "
+    "replace_or_advance_show is not reachable there and not modelled); every token a show uses is in the token dict; "
+    "two light placeholders of one step never name the same light; hash(str(dict)) collisions of the cache key are "
+    "ignored; the member a `random` pool returns is taken from the observation (input of the model), a `sequence` "
+    "pool's member is computed by the model; cases in which a synchronised start stops a show that has a timer due at "
+    "the very same instant are not fed to the model (asyncio does not promise an order of equal deadlines and here it "
+    "shows: about 6 % of the cases, counted as outside the domain) but stay with the oracle",
     "Player.v: a play on a key that holds a live show has sync_ms 0 and configures played/stopped events (always "
     "replaced); in the player correspondence suite every key is played once, the replacement / keep / advance "
     "branches of replace_or_advance_show are checked by the prio oracle only",
@@ -1143,6 +1163,763 @@ def describe_prio(case):
     return "triggers=%s" % ("<=3" if n <= 3 else "4-8" if n <= 8 else ">8")
 
 
+
+# ------------------------------------------------------------------------------------------------
+# replay: shows with `(token)` placeholders and show pools played REPEATEDLY through show_player on a few keys:
+# identical and non-identical requests while the previous show of the key runs (start step / later steps), after it
+# was stopped, after it completed by itself; sync_ms 0 and > 0 (the old show's stop is the new show's
+# start_callback), block_queue (stop callback = queue.clear).  Fed to the model of coq/C17/Replay.v and to the oracle.
+TOKS = ["ta", "tb", "tc", "td", "te"]            # light, light, colour, colour, event name
+TOKID = {n: i for i, n in enumerate(TOKS)}
+TOKCOL = {1: "red", 2: "lime", 3: "blue"}
+TOKEV = {1: "x", 2: "y"}
+MAXSLOTS = 14
+XKINDS = [k for k in EVKINDS if k != "updated"]
+
+
+def _tokval(name, v):
+    if name in ("ta", "tb"):
+        return "l%d" % v
+    if name in ("tc", "td"):
+        return TOKCOL[v]
+    return TOKEV[v]
+
+
+def gen_src(rng, short):
+    n = rng.choice([1, 1, 2, 2, 3, 4])
+    steps = []
+    use_tok = rng.random() < 0.8
+    for k in range(n):
+        d = rng.choice([4, 4, 8, 8] if short else [4, 8, 8, 16, 24, 32])
+        acts = []
+        for l in (2, 3):
+            if rng.random() < 0.45:
+                acts.append([l, rng.choice([1, 2, 3, 4, 5, 0, 6, 7, "tc", "td", "tcF"]) if use_tok
+                             else rng.choice([1, 2, 3, 4, 5, 0, 6, 7])])
+        if use_tok:
+            for lt in ("ta", "tb"):
+                if rng.random() < 0.55:
+                    acts.append([lt, rng.choice([1, 2, 3, "tc", "td", "tc", "td", "tdF", 0])])
+        if not acts:
+            acts.append([rng.choice([2, 3]), rng.choice([1, 2, 3])])
+        rng.shuffle(acts)
+        steps.append({"d": d, "a": acts, "e": "te" if (use_tok and rng.random() < 0.4) else None})
+    return {"steps": steps}
+
+
+def _src_tokens(src):
+    out = set()
+    for st in src["steps"]:
+        for l, c in st["a"]:
+            if isinstance(l, str):
+                out.add(l)
+            if isinstance(c, str):
+                out.add(c[:2])
+        if st["e"]:
+            out.add(st["e"])
+    return out
+
+
+def gen_tokdict(rng):
+    la = rng.choice([0, 1])
+    vals = {"ta": la, "tb": 1 - la, "tc": rng.choice([1, 2, 3]), "td": rng.choice([1, 2, 3]), "te": rng.choice([1, 2])}
+    return [[n, vals[n]] for n in TOKS]
+
+
+def vary_tokdict(rng, tok):
+    d = dict((n, v) for n, v in tok)
+    r = rng.random()
+    if r < 0.3:
+        d["ta"], d["tb"] = d["tb"], d["ta"]
+    elif r < 0.6:
+        d["tc"], d["td"] = d["td"], d["tc"]
+    elif r < 0.75:
+        d["tc"] = rng.choice([1, 2, 3])
+    elif r < 0.85:
+        d["te"] = 3 - d["te"]
+    order = [n for n, _ in tok]
+    if rng.random() < 0.25:
+        rng.shuffle(order)
+    return [[n, d[n]] for n in order]
+
+
+def gen_replay(rng, tier, i):
+    short = rng.random() < 0.5          # short finite shows: completion by itself between requests
+    nsrc = rng.choice([1, 2, 2, 3])
+    srcs = [gen_src(rng, short) for _ in range(nsrc)]
+    pools = []
+    for _ in range(rng.choice([0, 1, 1, 2])):
+        pools.append({"type": rng.choice(["sequence", "sequence", "random"]),
+                      "members": [rng.randrange(nsrc) for _ in range(rng.choice([1, 2, 2, 3]))]})
+    palette = []
+    for _ in range(rng.choice([1, 2, 2, 3])):
+        if palette and rng.random() < 0.6:
+            e = dict(palette[-1])
+            r = rng.random()
+            if r < 0.5:
+                e["tok"] = vary_tokdict(rng, e["tok"]) if e["tok"] else e["tok"]
+            elif r < 0.65:
+                e["start"] = e["start"] + 1
+            elif r < 0.75:
+                e["speed4"] = rng.choice([2, 4, 8])
+            elif r < 0.85:
+                e["sync"] = rng.choice([0, 8, 16])
+            else:
+                e["ev"] = not e["ev"]
+            palette.append(e)
+            continue
+        ref = 100 + rng.randrange(len(pools)) if pools and rng.random() < 0.45 else rng.randrange(nsrc)
+        members = pools[ref - 100]["members"] if ref >= 100 else [ref]
+        n = len(srcs[members[0]]["steps"])
+        need = set().union(*[_src_tokens(srcs[mm]) for mm in members])
+        palette.append({"show": ref, "tok": gen_tokdict(rng) if (need or rng.random() < 0.3) else [],
+                        "prio": rng.choice([0, 0, 1, 2]),
+                        "speed4": rng.choice([2, 4, 4, 4, 8]),
+                        "loops": rng.choice([0, 0, 0, 1] if short else [-1, -1, 0, 1, 2]),
+                        "start": rng.choice([1, 1, 1, 1, 2, n, n, n + 1, 0, -1]),
+                        "sync": rng.choice([0, 0, 0, 0, 8, 16]),
+                        "manual": rng.random() < 0.12, "running": rng.random() > 0.06,
+                        "ev": rng.random() < 0.25, "bq": rng.random() < 0.2})
+    nkeys = rng.choice([1, 1, 2])
+    ops = []
+    # mostly odd ticks: shows started at once then run on odd ticks and never have a step due at a sync boundary
+    # (a multiple of 8 ticks) at which a synchronised replacement stops them (order of equal deadlines: see _tie)
+    odd = rng.random() < 0.8
+    t = 2 * rng.randint(0, 20) + 1 if odd else rng.choice([0, 0, 4, rng.randint(0, 40)])
+    nplay = 0
+    waiting = {}
+    for j in range(rng.choice([3, 4, 5, 6, 8, 10])):
+        key = rng.randrange(nkeys)
+        if j == 0 or (rng.random() < 0.62 and nplay < MAXSLOTS):
+            pi = rng.randrange(len(palette))
+            sy = palette[pi]["sync"]
+            bnd = t + sy - t % sy if sy else None
+            if sy and bnd in waiting.setdefault(key, set()) and rng.random() < 0.9:
+                # the show of this key still waits for the same sync boundary: two starts due at one instant, the
+                # later one stopping the earlier one (see _tie): rarely generated
+                ops.append([t, key, "probe", 0])
+            else:
+                ops.append([t, key, "play", pi])
+                waiting.setdefault(key, set()).add(bnd)
+                nplay += 1
+        else:
+            ops.append([t, key, rng.choice(["stop", "pause", "resume", "advance", "advance", "step_back", "probe"]), 0])
+        t += rng.choice([0, 0, 1, 4, 4, 8, 8, 12, 16, 32, 64, 64] if short else [0, 0, 1, 4, 4, 8, 8, 12, 16, 32, 48])
+        if odd and t % 2 == 0:
+            t += 1
+    return {"srcs": srcs, "pools": pools, "palette": palette, "nkeys": nkeys,
+            "fades": [0] * NLIGHTS if rng.random() < 0.5 else [rng.choice([0, 4, 8]) for _ in range(NLIGHTS)],
+            "ops": ops, "horizon": ops[-1][0] + rng.choice([24, 64, 128])}
+
+
+def src_yaml(src):
+    out = []
+    for st in src["steps"]:
+        lights = {}
+        for l, c in st["a"]:
+            ln = "(%s)" % l if isinstance(l, str) else "l%d" % l
+            if isinstance(c, str):
+                cn = "(%s)" % c[:2] + ("-f250ms" if c.endswith("F") else "")
+            else:
+                cn = STOPS[c] if c in STOPS else COLORS[c]
+            lights[ln] = cn
+        out.append({"duration": _ms(st["d"]), "lights": lights,
+                    "events": "c17r_(%s)" % st["e"] if st["e"] else "c17r_m"})
+    return out
+
+
+def subst_src(src, tok):
+    """independent substitution of a token dict into the abstract source steps: per step the set of
+    (light, colour code | stop code)"""
+    d = dict((n, v) for n, v in tok)
+    out = []
+    for st in src["steps"]:
+        acts = set()
+        for l, c in st["a"]:
+            li = d[l] if isinstance(l, str) else l
+            ci = d[c[:2]] if isinstance(c, str) else c
+            acts.add((li, ci))
+        if st["e"]:
+            acts.add((100, d[st["e"]]))
+        out.append(sorted(acts))
+    return out
+
+
+def replay_init():
+    sched_init()
+    if _G.get("replay"):
+        return
+    _G["replay"] = True
+    log = _G["log"]
+    from mpf.config_players.event_player import EventPlayer
+    from mpf.config_players.light_player import LightPlayer
+    oep, occ = EventPlayer.play, LightPlayer.clear_context
+
+    def ep(self, settings, context, calling_context, priority=0, **kwargs):
+        if _G.get("replay_on") and isinstance(context, str) and context.startswith("show_"):
+            log.append(("step", _G["m"].clock.get_time(), context, calling_context,
+                        sorted(str(k) for k in settings), kwargs.get("start_time")))
+        return oep(self, settings, context, calling_context, priority, **kwargs)
+
+    def cc(self, context):
+        if _G.get("replay_on"):
+            log.append(("ctxclear", _G["m"].clock.get_time(), context))
+        return occ(self, context)
+    EventPlayer.play = ep
+    LightPlayer.clear_context = cc
+    _install_slot_handlers()
+
+
+def _install_slot_handlers():
+    m, log = _G["m"], _G["log"]
+    if getattr(m, "_c17_slots", False):
+        return
+    m._c17_slots = True
+
+    def mk(slot, kind):
+        def h(**kwargs):
+            log.append(("xev", m.clock.get_time(), slot, kind))
+        return h
+    for slot in range(MAXSLOTS + 1):
+        for kind in XKINDS:
+            m.events.add_handler("c17x_%d_%s" % (slot, kind), mk(slot, kind))
+
+
+def run_replay(case):
+    import json as _json
+    from mpf.core.events import QueuedEvent
+    rig, m, log = _G["rig"], _G["m"], _G["log"]
+    _install_slot_handlers()
+    _G["replay_on"] = True
+    try:
+        return _run_replay(case)
+    finally:
+        _G["replay_on"] = False
+
+
+def _run_replay(case):
+    import json as _json
+    from mpf.core.events import QueuedEvent
+    rig, m, log = _G["rig"], _G["m"], _G["log"]
+    _G["n"] += 1
+    now = rig.now()
+    base = (int(now) // 6 + 1) * 6.0
+    rig.advance(base - now)
+    fades = case.get("fades") or [0] * NLIGHTS
+    for l in range(NLIGHTS):
+        m.lights["l%d" % l].clear_stack()
+        m.lights["l%d" % l].default_fade_ms = fades[l] * 125 // 4
+    rig.advance(0)
+    del log[:]
+    names = []
+    for i, src in enumerate(case["srcs"]):
+        name = "c17r_%d_%d" % (_G["n"], i)
+        m.show_controller.register_show(name)
+        m.shows[name].load(src_yaml(src))
+        names.append(name)
+    pnames = []
+    for j, p in enumerate(case["pools"]):
+        pn = "c17rp_%d_%d" % (_G["n"], j)
+        m.show_controller._create_show_pool({"show_pools": {pn: {"shows": ", ".join(names[i] for i in p["members"]),
+                                                                 "type": p["type"]}}})
+        pnames.append(pn)
+    steps0 = _json.dumps([_canon(m.shows[nme].show_steps) for nme in names], sort_keys=True)
+    sp = m.show_controller.show_players["shows"]
+    nslots = sum(1 for o in case["ops"] if o[2] == "play")
+    out = {"exc": None, "offgrid": False}
+    valid = {}           # (palette index, key) without events -> the validated entry (one config entry, triggered again)
+    valid0 = {}
+    id2slot = {}
+    insts = [None] * nslots
+    inst_steps0 = [None] * nslots
+    snaps, bsnaps, post = [], [], []
+    cbrows = [[] for _ in range(nslots)]
+
+    class Q(QueuedEvent):
+        def __init__(self, slot):
+            super().__init__(lambda *a: None)
+            self.slot = slot
+
+        def clear(self):
+            t = rig.now()
+            if 0 <= self.slot < nslots:
+                cbrows[self.slot].append(t)
+            return super().clear()
+
+    def bind_snap():
+        d = sp.instances.get("_global", {}).get("show_player", {})
+        rows = []
+        for k in range(case["nkeys"]):
+            rs = d.get("k%d" % k)
+            rows.append([-1, 0] if rs is None else [id2slot.get(rs.id, -2), int(rs.stopped)])
+        rows.append([-1 if rs is None else int(rs.stopped) for rs in insts])
+        return rows
+
+    slot = -1
+    try:
+        for t, key, kind, a in case["ops"]:
+            target = base + t / 32.0
+            if target > rig.now():
+                rig.advance(target - rig.now())
+            log.append(("op", rig.now(), key, kind))
+            kname = "k%d" % key
+            info = None
+            if kind == "play":
+                slot += 1
+                e = case["palette"][a]
+                ck = (a, key)
+                if e["ev"] or ck not in valid:
+                    st = {"action": "play", "key": kname, "priority": e["prio"], "speed": e["speed4"] / 4.0,
+                          "start_step": e["start"], "loops": e["loops"], "sync_ms": e["sync"] * 125 // 4,
+                          "manual_advance": e["manual"], "start_running": e["running"], "block_queue": e["bq"],
+                          "show_tokens": {n: _tokval(n, v) for n, v in e["tok"]}}
+                    if e["ev"]:
+                        st.update({"events_when_" + k: "c17x_%d_%s" % (slot, k) for k in XKINDS})
+                    ref = pnames[e["show"] - 100] if e["show"] >= 100 else names[e["show"]]
+                    v = sp.validate_config_entry({ref: st}, "c17")
+                    if not e["ev"]:
+                        valid[ck] = v
+                        valid0[ck] = _json.dumps(_canon(v), sort_keys=True)
+                else:
+                    v = valid[ck]
+                d = sp.instances.get("_global", {}).get("show_player", {})
+                old = d.get(kname)
+                info = {"old": None if old is None else [id2slot.get(old.id, -2), int(old.stopped),
+                                                         -1 if old.current_step_index is None else old.current_step_index]}
+                q = Q(slot) if e["bq"] else None
+                sp.play(v, "_global", None, 0, queue=q)
+                new = sp.instances["_global"]["show_player"].get(kname)
+                if new is not None and new.id not in id2slot:
+                    id2slot[new.id] = slot
+                    insts[slot] = new
+                    inst_steps0[slot] = _json.dumps(_canon(new.show_steps), sort_keys=True)
+                info["new"] = None if new is None else [id2slot.get(new.id, -2), int(new.stopped),
+                                                        -1 if new.current_step_index is None else new.current_step_index]
+            elif kind != "probe":
+                sp.play(sp.validate_config_entry({kname: {"action": kind}}, "c17"), "_global", None, 0)
+            rig.advance(0)
+            rig.advance(0)
+            post.append(info)
+            ctx2slot = {"show_%d.light_player" % i: s for i, s in id2slot.items()}
+            snaps.append(_snapshot(m, ctx2slot))
+            bsnaps.append(bind_snap())
+        rig.advance(base + case["horizon"] / 32.0 - rig.now())
+        rig.advance(0)
+        ctx2slot = {"show_%d.light_player" % i: s for i, s in id2slot.items()}
+        snaps.append(_snapshot(m, ctx2slot))
+        bsnaps.append(bind_snap())
+    except Exception as ex:
+        out["exc"] = "%s: %s" % (type(ex).__name__, ex)
+    if rig._exception:
+        out["exc"] = "loop: %r" % (rig._exception,)
+        rig._exception = None
+    ctx2slot = {"show_%d.light_player" % i: s for i, s in id2slot.items()}
+    c2slot = {"show_%d" % i: s for i, s in id2slot.items()}
+
+    def us(x):
+        r = _us(x, base)
+        if r is None:
+            out["offgrid"] = True
+            return int(round((x - base) * 1e6))
+        return r
+    finals, members = [], []
+    for rs in insts:
+        if rs is None:
+            finals.append([0])
+            members.append(-1)
+        else:
+            h = rs._delay_handler
+            pending = h is not None and not h.cancelled() and h.when() > rig.now()
+            finals.append([1, int(rs.stopped), rs.next_step_index, rs.loops, us(rs.next_step_time),
+                           us(h.when()) if pending else -1])
+            members.append(names.index(rs.name) if rs.name in names else -2)
+    ev = [[] for _ in range(nslots)]
+    lops = [[] for _ in range(nslots)]
+    fends = [[] for _ in range(nslots)]
+    execs = [[] for _ in range(nslots)]          # [time, step index, sorted [(light, code)]] in program order
+    tstop = [None] * nslots
+    cur = [[] for _ in range(nslots)]
+    evval = {"c17r_x": 1, "c17r_y": 2}
+    for rec in log:
+        if rec[0] == "op":
+            continue
+        t = us(rec[1])
+        if rec[0] == "xev":
+            if rec[2] < nslots:
+                ev[rec[2]].append([rec[2], t, EVCODE[rec[3]], 0, 0, 0])
+        elif rec[0] == "step":
+            s = c2slot.get(rec[2])
+            if s is None:
+                continue
+            for nme in rec[4]:
+                if nme in evval:
+                    lops[s].append([s, t, 10, 100, evval[nme], us(rec[5]) if rec[5] else -7])
+                    cur[s].append((100, evval[nme]))
+                elif nme != "c17r_m":
+                    cur[s].append((100, -1))
+            ev[s].append([s, t, 0, rec[3], 0, 0])
+            execs[s].append([t, rec[3], sorted(cur[s])])
+            cur[s] = []
+        elif rec[0] == "ctxclear":
+            s = ctx2slot.get(rec[2] + ".light_player") if not rec[2].endswith(".light_player") else ctx2slot.get(rec[2])
+            if s is not None and tstop[s] is None:
+                tstop[s] = t
+        elif rec[0] in ("set", "rem", "clear", "fade_end"):
+            kind, _, lname, col, key, extra = rec
+            s = ctx2slot.get(key)
+            if s is None:
+                continue
+            l = int(lname[1:])
+            if kind == "set":
+                code = RGB2CODE.get(col, -1)
+                lops[s].append([s, t, 10, l, code, us(extra) if extra else -7])
+                cur[s].append((l, code))
+            elif kind == "rem":
+                lops[s].append([s, t, 11, l, -1 if col is None else int(col) * 1000, 0])
+                cur[s].append((l, {None: 0, 250: 6, 0: 7}.get(col, -9)))
+            elif kind == "fade_end":
+                fends[s].append([s, t, 13, l, 0, 0])
+            elif extra:
+                lops[s].append([s, t, 12, l, 0, 0])
+    for rows in lops:
+        rows.sort(key=lambda r: (r[1], r[3]))            # stable: as Replay.sort_rows
+    for s, rows in enumerate(fends):
+        busy = set((r[1], r[3]) for r in lops[s])
+        rows[:] = sorted((r for r in rows if (r[1], r[3]) not in busy), key=lambda r: (r[1], r[3]))
+    mutated = []
+    for ck, v in valid.items():
+        if _json.dumps(_canon(v), sort_keys=True) != valid0[ck]:
+            mutated.append("validated show_player entry %s" % (ck,))
+    if _json.dumps([_canon(m.shows[nme].show_steps) for nme in names], sort_keys=True) != steps0:
+        mutated.append("Show.show_steps")
+    for s, rs in enumerate(insts):
+        if rs is not None and _json.dumps(_canon(rs.show_steps), sort_keys=True) != inst_steps0[s]:
+            mutated.append("steps of instance %d (cached per token dict)" % s)
+    out.update(ev=ev, lops=lops, fends=fends, snaps=snaps, bsnaps=bsnaps, finals=finals, members=members,
+               cb=[[[s, _cbus(x, base), 14, 0, 0, 0] for x in xs] for s, xs in enumerate(cbrows)],
+               execs=execs, tstop=tstop, post=post, mutated=mutated, nslots=nslots)
+    try:
+        sp.clear_context("_global")
+        rig.advance(0)
+    except Exception:
+        pass
+    _leave_case([rs for rs in insts if rs is not None], names + pnames)
+    return out
+
+
+def _cbus(x, base):
+    r = _us(x, base)
+    return r if r is not None else int(round((x - base) * 1e6))
+
+
+def _coq_ref(x, colour):
+    if isinstance(x, str):
+        return "(Tok %s)" % zlit(TOKID[x[:2]])
+    return "(Lit %s)" % zlit(x)
+
+
+def coq_pcfg(e, pick):
+    return "(mkPC %s %s %s %s %s %s %s %s %s %s %s %s)" % (
+        zlit(e["show"]), zlit(pick), coqlist("(%s,%s)" % (zlit(TOKID[n]), zlit(v)) for n, v in e["tok"]),
+        zlit(e["prio"]), zlit(e["speed4"]), zlit(e["loops"]), zlit(e["start"]), zlit(e["sync"] * TICK_US),
+        blit(e["manual"]), blit(e["running"]), blit(e["ev"]), blit(e["bq"]))
+
+
+def _tie(case, out):
+    """a synchronised start whose start callback stops a show that has a timer due at the very same instant: which
+    of the two equal deadlines asyncio runs first is not promised, and here it matters (the replaced show does or
+    does not run one more step): outside the model's domain, left to the oracle"""
+    plays = [(i, o) for i, o in enumerate(case["ops"]) if o[2] == "play"]
+    for s, (i, o) in enumerate(plays):
+        e = case["palette"][o[3]]
+        info = out["post"][i] if i < len(out["post"]) else None
+        if not e["sync"] or not info or not info["old"] or not info["new"]:
+            continue
+        if info["new"][0] != s or info["old"][0] < 0 or info["old"][0] == s or info["old"][1]:
+            continue
+        cand = set()
+        if out["execs"][s]:
+            cand.add(out["execs"][s][0][0])
+        sync = e["sync"] * TICK_US
+        cand.add(o[0] * TICK_US + sync - (o[0] * TICK_US) % sync)
+        if out["tstop"][s] is not None:
+            cand.add(out["tstop"][s])
+        # the replaced show and, through its own pending start callback, every older show of the key that still
+        # ran when this request came (the chain of start callbacks)
+        before = out["bsnaps"][i - 1][-1] if i > 0 else []
+        for a, (ia, oa) in enumerate(plays[:s]):
+            if oa[1] != o[1] or a >= len(before) or before[a] != 0:
+                continue
+            if out["finals"][a][0] and out["finals"][a][4] in cand:
+                return True
+            if any(x[0] in cand for x in out["execs"][a]):
+                return True
+    return False
+
+
+def coq_replay(case, out):
+    if out.get("exc") or _tie(case, out):
+        return None
+    srcs = coqlist(coqlist("(mkSS %s %s)" % (
+        zlit(st["d"] * TICK_US),
+        coqlist(["(%s,%s)" % (_coq_ref(l, False), _coq_ref(c, True)) for l, c in st["a"]] +
+                (["(Lit 100, Tok %s)" % zlit(TOKID[st["e"]])] if st["e"] else []))) for st in src["steps"])
+        for src in case["srcs"])
+    pools = coqlist("(%s,%s)" % (zlit(0 if p["type"] == "sequence" else 1), zlist(p["members"])) for p in case["pools"])
+    ops = []
+    slot = -1
+    for t, key, kind, a in case["ops"]:
+        if kind == "play":
+            slot += 1
+            pick = out["members"][slot] if slot < len(out["members"]) else -1
+            act = "(XPlay %s %s)" % (zlit(slot), coq_pcfg(case["palette"][a], pick))
+        else:
+            act = {"stop": "XStop", "pause": "XPause", "resume": "XResume", "advance": "XAdvance",
+                   "step_back": "XStepBack", "probe": "XProbe"}[kind]
+        ops.append("(%s,%s,%s)" % (zlit(t * TICK_US), zlit(key), act))
+    nslots = out["nslots"]
+    fuel = ((case["horizon"] + 2) * max(nslots, 1) + len(case["ops"]) + 8) * (NLIGHTS + 1)
+    inp = "(%s, %s, %s, %s, %s, %s, %s, %s)" % (
+        srcs, pools, zlist([f * TICK_US for f in case["fades"]]), zlit(case["nkeys"]), zlit(nslots),
+        coqlist(ops), zlit(case["horizon"] * TICK_US), zlit(fuel))
+    exp = "((%s, %s, %s, %s, %s), %s, %s, %s)" % (
+        coqlist(zll(rows) for rows in out["ev"]),
+        coqlist(zll(rows) for rows in out["lops"]),
+        coqlist(zll(rows) for rows in out["fends"]),
+        coqlist(coqlist(zlist([x for e in st for x in e]) for st in snap) for snap in out["snaps"]),
+        zll(out["finals"]),
+        coqlist(zll(b) for b in out["bsnaps"]),
+        coqlist(zll(rows) for rows in out["cb"]),
+        zlist(out["members"]))
+    return "(%s, %s)" % (inp, exp)
+
+
+HDR_REPLAY = ("From C17 Require Import Model Replay.\nDefinition run := C17.Replay.xrun.\n"
+              "Definition out_eqb := C17.Replay.xout_eqb.\n")
+
+
+def oracle_replay(case, out):
+    fails = []
+    if out.get("exc"):
+        return [{"sig": "exception", "what": "a show_player request raised: %s" % out["exc"]}]
+    if out.get("offgrid"):
+        fails.append({"sig": "drift-offgrid", "what": "an effect happened at an instant that is not on the exact grid"})
+    for what in out["mutated"]:
+        fails.append({"sig": "config-mutated", "what": "%s changed while shows were played" % what})
+    nslots = out["nslots"]
+    ops = case["ops"]
+    plays = [(i, o) for i, o in enumerate(ops) if o[2] == "play"]
+    entry = [case["palette"][o[3]] for _, o in plays]
+    play_t = [o[0] * TICK_US for _, o in plays]
+    play_key = [o[1] for _, o in plays]
+    hz = case["horizon"] * TICK_US
+    # which instance every request was delivered to (the one bound to the key before the request)
+    ctl = [[] for _ in range(nslots)]         # non-play requests an instance received: (time, kind)
+    for i, o in enumerate(ops):
+        if o[2] in ("play", "probe") or i == 0:
+            continue
+        b = out["bsnaps"][i - 1][o[1]]
+        if b[0] >= 0:
+            ctl[b[0]].append((o[0] * TICK_US, o[2]))
+    seqpos = {}
+    for s in range(nslots):
+        e = entry[s]
+        if out["members"][s] < 0:
+            continue
+        # ---- pools: the member that plays belongs to the pool; a sequence pool goes round
+        if e["show"] >= 100:
+            p = case["pools"][e["show"] - 100]
+            if out["members"][s] not in p["members"]:
+                fails.append({"sig": "pool-member-wrong", "what": "slot %d plays a show that is not in its pool" % s})
+                continue
+            if p["type"] == "sequence":
+                k = seqpos.get(e["show"], 0)
+                seqpos[e["show"]] = k + 1
+                if out["members"][s] != p["members"][k % len(p["members"])]:
+                    fails.append({"sig": "pool-sequence-wrong", "what": "sequence pool %d: play #%d used show %d" %
+                                  (e["show"] - 100, k, out["members"][s])})
+        elif out["members"][s] != e["show"]:
+            fails.append({"sig": "wrong-show-played", "what": "slot %d plays show %d, requested %d" %
+                          (s, out["members"][s], e["show"])})
+            continue
+        # ---- token substitution: what every executed step does = ITS token dict put into the show's source steps
+        src = case["srcs"][out["members"][s]]
+        want = subst_src(src, e["tok"]) if e["tok"] else subst_src(src, [])if not _src_tokens(src) else None
+        if want is not None:
+            for t, k, acts in out["execs"][s]:
+                if k >= len(want) or [list(a) for a in acts] != [list(a) for a in want[k]]:
+                    fails.append({"sig": "token-substitution-wrong",
+                                  "what": "instance %d (show %d, tokens %s) executed step %d at %d us as %s; its token "
+                                          "dict substituted into the source step gives %s" %
+                                          (s, out["members"][s], e["tok"], k, t, acts, want[k] if k < len(want) else None)})
+                    break
+    # ---- every play request ends with a RUNNING show bound to the key that executes from the requested step
+    for s, (i, o) in enumerate(plays):
+        e = entry[s]
+        info = out["post"][i] if i < len(out["post"]) else None
+        if info is None:
+            continue
+        new, old = info["new"], info["old"]
+        n_any = [len(src["steps"]) for src in case["srcs"]]
+        ms = case["pools"][e["show"] - 100]["members"] if e["show"] >= 100 else [e["show"]]
+        # start_step beyond the end: the show wraps (a loop is used up) or completes at once, and the "one step
+        # behind -> advance" shortcut compares the raw start_step: an out-of-range oddity (NOTES), not judged here
+        may_complete_at_once = any(e["start"] > n_any[mm] for mm in ms)
+        if new is None or new[0] == -2:
+            fails.append({"sig": "play-request-dropped", "what": "play #%d on key %d: no instance bound" % (s, o[1])})
+            continue
+        if new[1] and not may_complete_at_once:
+            fails.append({"sig": "play-request-dropped",
+                          "what": "play #%d on key %d at tick %d: the instance bound to the key afterwards (slot %d) is "
+                                  "stopped: the request was dropped" % (s, o[1], o[0], new[0])})
+            continue
+        if new[1]:
+            continue
+        inst = new[0]
+        n = n_any[out["members"][inst]] if 0 <= inst < nslots and out["members"][inst] >= 0 else None
+        if n is None:
+            continue
+        st = e["start"]
+        want_idx = (st - 1) if st > 0 else (st % n if st < 0 else 0)
+        if want_idx >= n:
+            want_idx = 0
+        if inst != s or e["sync"] == 0:
+            if new[2] != want_idx:
+                fails.append({"sig": "start-step-wrong",
+                              "what": "play #%d (start_step %d) on key %d: the running instance is on step index %d"
+                                      % (s, st, o[1], new[2])})
+        else:
+            sync = e["sync"] * TICK_US
+            t0 = play_t[s] + sync - play_t[s] % sync
+            later = any(oo[2] == "play" and oo[1] == o[1] and o[0] <= oo[0] and oo[0] * TICK_US < t0
+                        for oo in ops[i + 1:])     # replaced while it waited (incl. a start at the same instant)
+            if (not any(t < t0 for t, k in ctl[s]) and t0 <= hz and _replaced_before(case, out, s, t0) is None
+                    and not later and not may_complete_at_once):
+                ex = out["execs"][s]
+                if not ex or ex[0][0] != t0 or ex[0][1] != want_idx:
+                    fails.append({"sig": "start-step-wrong",
+                                  "what": "play #%d (sync %d us): first step %s, expected step %d at %d us" %
+                                          (s, sync, ex[:1], want_idx, t0)})
+        # ---- a replaced show stops exactly when the new one starts
+        if old is not None and old[0] >= 0 and not old[1] and inst == s and old[0] != s:
+            o_s = old[0]
+            if e["sync"] == 0:
+                t_new = play_t[s]
+            else:
+                sync = e["sync"] * TICK_US
+                t_new = play_t[s] + sync - play_t[s] % sync
+                early = [(t, k) for t, k in ctl[s] if t < t_new]
+                if early and early[0][1] != "stop":
+                    # recorded defect: a request during the wait for the synchronised start cancels the start
+                    if out["finals"][o_s][1] == 0 or (out["tstop"][o_s] is not None and out["tstop"][o_s] > t_new):
+                        fails.append({"sig": "played-missing-request-before-sync-start",
+                                      "what": "a show that gets a pause/resume/advance/step_back request while it waits "
+                                              "for its synchronised start never starts properly: the show it replaces "
+                                              "is only stopped when it stops"})
+                    continue
+                if early:
+                    t_new = early[0][0]
+                rep = _replaced_before(case, out, s, t_new)
+                if rep is not None:
+                    t_new = rep      # replaced itself before it started: its stop() runs its start callback
+            if t_new > hz:
+                continue
+            ts = out["tstop"][o_s]
+            stopped_end = out["finals"][o_s][1] == 1
+            # (it may have completed by itself while the new show waited for its start: earlier is fine)
+            if not stopped_end or (ts is not None and ts > t_new) or (e["sync"] == 0 and ts is not None and ts != t_new):
+                fails.append({"sig": "replaced-show-not-stopped-at-start",
+                              "what": "play #%d on key %d replaces instance %d: the new show starts at %d us, the old one "
+                                      "%s" % (s, o[1], o_s, t_new, "is never stopped" if not stopped_end
+                                              else "stops at %d us" % ts)})
+    # ---- stop callback (queue.clear of block_queue): exactly once, when the show has stopped
+    for s in range(nslots):
+        rows = out["cb"][s]
+        if not entry[s]["bq"]:
+            continue
+        created = out["members"][s] >= 0
+        stopped = created and out["finals"][s][1] == 1
+        if len(rows) != (1 if stopped else 0):
+            fails.append({"sig": "stop-callback-count",
+                          "what": "instance %d (block_queue): the queue was released %d times, the show %s" %
+                                  (s, len(rows), "has stopped" if stopped else "has not stopped"
+                                   if created else "was never created")})
+        elif rows and out["tstop"][s] is not None and rows[0][1] != out["tstop"][s]:
+            fails.append({"sig": "stop-callback-at-wrong-time",
+                          "what": "instance %d: queue released at %d us, the show stopped at %d us" %
+                                  (s, rows[0][1], out["tstop"][s])})
+    # ---- schedule of instances that got no control request: k-th executed step at t0 + sum(durations)/speed
+    for s in range(nslots):
+        e = entry[s]
+        if out["members"][s] < 0 or ctl[s] or e["manual"] or not e["running"] or not out["execs"][s]:
+            continue
+        if any(info and info["old"] and info["old"][0] == s and info["new"] and info["new"][0] == s
+               for info in out["post"]):
+            continue            # advanced / kept by a later identical request
+        durs = [st["d"] * TICK_US for st in case["srcs"][out["members"][s]]["steps"]]
+        sync = e["sync"] * TICK_US
+        acc = Fraction(play_t[s] + sync - play_t[s] % sync if sync else play_t[s])
+        idx = out["execs"][s][0][1]
+        for j, (t, k, acts) in enumerate(out["execs"][s]):
+            if Fraction(t) != acc or k != idx:
+                fails.append({"sig": "drift", "what": "instance %d: executed step #%d is step %d at %d us; schedule says "
+                              "step %d at %s us" % (s, j, k, t, idx, acc)})
+                break
+            acc += Fraction(durs[idx] * 4, e["speed4"])
+            idx = (idx + 1) % len(durs)
+    # ---- clean-up: at the end a stopped instance owns no live entry
+    for l, st in enumerate(out["snaps"][-1] if out["snaps"] else []):
+        for owner, col in st:
+            if 0 <= owner < nslots and out["finals"][owner][1] == 1 and col != -1:
+                fails.append({"sig": "context-left-after-stop",
+                              "what": "instance %d has stopped but still owns an entry on light %d at the end" % (owner, l)})
+    for s in range(nslots):
+        if sum(1 for r in out["ev"][s] if r[2] == 4) > 1 or sum(1 for r in out["ev"][s] if r[2] == 1) > 1:
+            fails.append({"sig": "stopped-twice", "what": "instance %d posted played/stopped more than once" % s})
+    return fails
+
+
+def _replaced_before(case, out, s, t0):
+    """time (< t0) at which instance s was stopped by a request (stop action / replacement), else None"""
+    ts = out["tstop"][s]
+    if ts is not None and ts < t0:
+        return ts
+    # never executed a step: look at the stopped flags after every request
+    for i, b in enumerate(out["bsnaps"][:-1]):
+        if s < len(b[-1]) and b[-1][s] == 1:
+            t = case["ops"][i][0] * TICK_US
+            return t if t < t0 else None
+    return None
+
+
+def shrink_replay(case):
+    ops = case["ops"]
+    for i in range(len(ops) - 1, 0, -1):
+        yield dict(case, ops=ops[:i] + ops[i + 1:])
+    for pi, e in enumerate(case["palette"]):
+        for key, val in (("sync", 0), ("speed4", 4), ("manual", False), ("running", True), ("ev", False),
+                         ("bq", False), ("prio", 0)):
+            if e[key] != val:
+                yield dict(case, palette=case["palette"][:pi] + [dict(e, **{key: val})] + case["palette"][pi + 1:])
+    if any(case["fades"]):
+        yield dict(case, fades=[0] * NLIGHTS)
+    last = max(o[0] for o in ops)
+    if case["horizon"] > last + 24:
+        yield dict(case, horizon=last + 24)
+
+
+def nontrivial_replay(case, out):
+    if out.get("exc"):
+        return True
+    # a play request that met a previous instance on its key
+    return any(info and info.get("old") for info in out.get("post", []))
+
+
+def describe_replay(case):
+    return "plays=%d%s%s" % (sum(1 for o in case["ops"] if o[2] == "play"), " pool" if case["pools"] else "",
+                             " sync" if any(e["sync"] for e in case["palette"]) else "")
+
+
 SUITES = [
     Suite("sched", gen_sched, run_sched, HDR_SCHED, coq_sched, oracle_sched, shrink_sched, nontrivial_sched,
           {"quick": 1200, "thorough": 40000}, worker_init=sched_init, describe=describe_sched, shard=150),
@@ -1152,6 +1929,8 @@ SUITES = [
           {"quick": 400, "thorough": 10000}, worker_init=sched_init, describe=describe_sched, shard=150),
     Suite("prio", gen_prio, run_prio, None, None, oracle_prio, shrink_prio, nontrivial_prio,
           {"quick": 400, "thorough": 10000}, worker_init=sched_init, describe=describe_prio),
+    Suite("replay", gen_replay, run_replay, HDR_REPLAY, coq_replay, oracle_replay, shrink_replay, nontrivial_replay,
+          {"quick": 400, "thorough": 12000}, worker_init=replay_init, describe=describe_replay, shard=150),
 ]
 
 LEVEL_TEXT = ("Machine-checked proof (Coq) about an executable model of RunningShow, its control requests, the light "
@@ -1165,13 +1944,20 @@ LEVEL_TEXT = ("Machine-checked proof (Coq) about an executable model of RunningS
               "what another show has on the lights, for every history of several shows on shared lights with any "
               "default fades; at most one running show per (context, key), stop by key stops exactly that show, a "
               "stopped mode's context ends empty, for every sequence of show_player actions.  The models are tied to "
-              "/repo by running both on the same generated request sequences on every run.")
+              "/repo by running both on the same generated request sequences on every run.  Second pass (Replay.v): "
+              "whatever token dicts were played before, a play gets the substitution of ITS OWN token dict into the "
+              "show's source steps (a cache keyed by the sorted values is refuted); after a play request the key is "
+              "bound to the new show or to a previous one that has not stopped (keep / advance), a dead or missing "
+              "previous instance always gives a new show of the requested configuration from the requested step; a "
+              "show replaced in sync is stopped when the new show's start timer expires or when the new show is "
+              "stopped before; the stop callback runs when the show stops and never again.")
 LEVEL_NOTE = ("Trusted: Coq kernel + vm_compute; no axioms. Models hand-written (of the code with fixes/C17-*.patch); "
               "correspondence (differential) validates them against the working tree on the exact 1/32 s grid (sched "
               "suite: direct API; player suite: through show_player); the generic (non-grid) stream, the replacement / "
               "keep / advance branches of replace_or_advance_show, calling priorities and the mode route of "
               "clear_context (prio suite) are checked by the direct oracle only. Light stack ordering and fade colours "
-              "are C09's subject; asset loading, token replacement, sync'ed replacement (start_callback) and "
-              "show_step= of advance are outside the model.")
+              "are C09's subject; asset loading from disk, RuntimeToken (typed placeholders), show queues, random pool "
+              "selection and show_step= of advance are outside the model.  The replay suite (tokens, pools, "
+              "replace_or_advance_show, callbacks) is fed to the model Replay.v AND to the direct oracle.")
 TECHNIQUE = "Coq proof over hand-written executable model + differential correspondence (vm_compute) + direct property oracle"
 DESIGN_REF = "DESIGN.md section 3, C17"
